@@ -1,0 +1,76 @@
+//go:build verif
+
+package query
+
+// Contracts for the deductive verifier in /verif (govc). Comments only; compiled solely with -tags verif.
+
+// ---------------------------------------------------------------------------------------------
+// Dependency queries (C23)
+//
+// deps: a target is printed only strictly inside the level limit, and every recursive step goes one level
+// deeper — except along an edge to a hidden sub-target of the same rule, which costs nothing. (The converse —
+// every target within the limit is reported — does NOT hold: targets are marked done when first reached, so a
+// node first reached by a long path is not revisited by a shorter one and its descendants within the limit are
+// cut off; demonstrated in findings/C23 and recorded as a known finding.)
+//@ assume func printTarget
+//@   modifies nothing
+//@ assume func printTargetDot
+//@   modifies nothing
+//@ func deps
+//@   requires state != nil && target != nil && state.Graph != nil && done != nil
+//@   opt nopanic=off
+//@   opt inline=off
+//@   opt precall=off
+//@   callsite printTarget strictly_inside_the_limit [C23]: currentLevel != targetLevel && arg_currentLevel == currentLevel
+//@   callsite printTargetDot strictly_inside_the_limit [C23]: currentLevel != targetLevel && arg_parent == target
+//@   callsite deps one_step_deeper_unless_a_hidden_sibling [C23]: arg_targetLevel == targetLevel && arg_done == done && \
+//@      (arg_currentLevel == currentLevel + 1 || \
+//@       (arg_currentLevel == currentLevel && !hidden && arg_target.HasParent() && arg_target.Label.Parent() == target.Label.Parent()))
+//
+// somePath: the search only ever looks for the same destination with the same bookkeeping, a reported path
+// starts at the target it was asked about, and `nil` is what an already explored target yields.
+//@ func somePath
+//@   requires graph != nil && target1 != nil && target2 != nil && seen != nil
+//@   opt nopanic=off
+//@   opt inline=off
+//@   opt precall=off
+//@   callsite somePath same_destination [C23]: arg_target2 == target2 && arg_seen == seen && arg_except == except && arg_graph == graph
+//@   ensures a_path_starts_at_its_source [C23]: len(result) != 0 ==> result[0] == target1.Label
+
+// ---------------------------------------------------------------------------------------------
+// Change detection (C24)
+//
+// diffGraphs: every target of the `after` graph that is new, whose definition or tool paths changed
+// (targetChanged, assumed to be a function of the two targets and states), or any target at all when the
+// configuration hash changed, is in the returned set.
+//@ assume func targetChanged
+//@   pure
+//@ func diffGraphs
+//@   requires before != nil && after != nil && before.Graph != nil && after.Graph != nil
+//@   opt nopanic=off
+//@   invariant "range after.Graph.AllTargets()" reported: forall k int :: 0 <= k && k < idx ==> \
+//@      ((before.Graph.Target(after.Graph.AllTargets()[k].Label) == nil || \
+//@        targetChanged(before, after, before.Graph.Target(after.Graph.AllTargets()[k].Label), after.Graph.AllTargets()[k]) || \
+//@        !bytes.Equal(before.Hashes.Config, after.Hashes.Config)) ==> in(after.Graph.AllTargets()[k], changed))
+//@   ensures every_changed_target_is_reported [C24]: forall k int :: 0 <= k && k < len(after.Graph.AllTargets()) ==> \
+//@      ((before.Graph.Target(after.Graph.AllTargets()[k].Label) == nil || \
+//@        targetChanged(before, after, before.Graph.Target(after.Graph.AllTargets()[k].Label), after.Graph.AllTargets()[k]) || \
+//@        !bytes.Equal(before.Hashes.Config, after.Hashes.Config)) ==> in(after.Graph.AllTargets()[k], result))
+
+// changedTargets: for each changed file, every target of the package found for it (the closest enclosing
+// package: the walk up the directories stops at the first one) that has the file as a source is put into the
+// changed set; nothing is ever taken out of that set; and when a level is given the reverse dependencies are
+// computed from the labels of exactly that set, to that depth.
+//@ assume func FindRevdeps
+//@ func changedTargets
+//@   requires state != nil && state.Graph != nil && changed != nil
+//@   opt nopanic=off
+//@   opt inline=off
+//@   opt precall=off
+//@   opt permutation=multiset
+//@   invariant "range files" nothing_dropped: forall t *core.BuildTarget :: old(in(t, changed)) ==> in(t, changed)
+//@   invariant "loop#2" nothing_dropped: forall t *core.BuildTarget :: old(in(t, changed)) ==> in(t, changed)
+//@   invariant "range pkg.AllTargets()" consumers_reported [C24]: (forall k int :: 0 <= k && k < idx ==> \
+//@      (pkg.AllTargets()[k].HasAbsoluteSource(filename) ==> in(pkg.AllTargets()[k], changed))) && \
+//@      (forall t *core.BuildTarget :: old(in(t, changed)) ==> in(t, changed))
+//@   callsite FindRevdeps from_the_changed_set_to_the_given_depth [C24]: level != 0 && arg_depth == level && arg_targets == labels && arg_state == state
